@@ -54,6 +54,16 @@ CLAIMED['C04'] = (
     'payloads <= 4 bytes, two records, surplus <= 2 (quick) / 3 (thorough) bytes on the first three deliveries; '
     'longer streams follow by the induction sketched in DESIGN.md 5 C04, which is not mechanised', '5 C04')
 
+CLAIMED['C02'] = (
+    'for every leaf parsable class of the current tree: every byte string up to a calibrated length (<= 4 quick, 6 '
+    'thorough), every value of single bytes (quick: 2 positions; thorough: every position, plus 2-byte windows) of '
+    'accepted seed vectors harvested from the pinned suite, every proper prefix of those vectors, text formats behind a '
+    'concrete required prefix, through parse_immutable, parse_mutable(bytearray) and parse_exact_size: the solver '
+    'shows that no exception other than NotEnoughData, TooMuchData, InvalidValue, InvalidType escapes',
+    'exceptions raised while cryptodatahub formats InvalidValue messages are outside (X3 stub); text classes in the '
+    'quick tier range over 22 boundary characters per window instead of 256; classes that do not exhaust within the '
+    'cap are reported INCONCLUSIVE and not counted as decided', '5 C02')
+
 NOT_APPLICABLE = {
     'C19': 'asymptotic claim (work linear in input size for n, 2n, 4n, ...): a bounded symbolic execution fixes the '
            'input size, so a pass says nothing about growth; the total-work bound needs an amortised argument over '
